@@ -156,7 +156,7 @@ def check_bs(case) -> Outcome:
             out.fail("bs-quantile-knots", f"{kwargs}: inner knots {got_inner.tolist()} vs quantiles {exp_inner.tolist()}", **feat)
     else:
         ncols_exp = len(inner) + k + (1 if icpt else 0)
-        if not np.allclose(t[k + 1 : len(t) - (k + 1)], inner):
+        if len(t) - 2 * (k + 1) != len(inner) or not np.allclose(t[k + 1 : len(t) - (k + 1)], inner):
             out.fail("bs-explicit-knots-recorded", f"{kwargs}: {t}", **feat)
     if B.shape != (n, ncols_exp):
         out.fail("bs-column-count", f"{kwargs}: shape {B.shape}, expected {ncols_exp} columns", **feat)
@@ -420,6 +420,25 @@ def check_cs(case) -> Outcome:
         K = as_matrix(fn(knots if not cyclic else knots[:-1], _state=st2, **kwargs), len(knots) - (1 if cyclic else 0))
         if not np.allclose(K, np.eye(K.shape[0]), atol=1e-8):
             out.fail("cs-identity-at-knots", f"{feat['kind']}({kwargs}) knots={knots.tolist()}: {K.tolist()}", **feat)
+    # missing values: a NaN input row gives a NaN basis row and changes nothing else (explicit knots and bounds, so
+    # that removing a value cannot move them); NaN is not "out of bounds" for extrapolation="raise"
+    if df is None and case.get("nan_pos") is not None and n >= 3:
+        x2 = x.copy()
+        p_ = case["nan_pos"] % n
+        x2[p_] = np.nan
+        kw2 = dict(kwargs, lower_bound=lo, upper_bound=hi)
+        try:
+            M_nan = as_matrix(fn(x2, _state={}, **kw2), n)
+            M_ref = as_matrix(fn(x, _state={}, **kw2), n)
+        except Exception as e:
+            if not (mode == "raise" and oob.any()):
+                out.fail("cs-nan-input-raises", f"{feat['kind']}({kw2}) with a NaN at position {p_}: {type(e).__name__}: {str(e)[:120]}", **feat)
+            M_nan = None
+        if M_nan is not None and not cons:
+            keep_ = np.arange(n) != p_
+            if M_nan.shape != M_ref.shape or not np.all(np.isnan(M_nan[p_])) or not np.allclose(M_nan[keep_], M_ref[keep_], atol=1e-12, rtol=0, equal_nan=True):
+                out.fail("cs-nan-propagates", f"{feat['kind']}({kw2}): NaN at position {p_} gives row {M_nan[p_].tolist() if M_nan.shape == M_ref.shape else M_nan.shape}; other rows changed: {not np.allclose(M_nan[keep_], M_ref[keep_], atol=1e-12, rtol=0, equal_nan=True) if M_nan.shape == M_ref.shape else 'shape'}", **feat)
+        out.label("nan-row")
     fol = case.get("follow")
     if fol is not None:
         rng = np.random.default_rng(fol["seed"])
@@ -448,6 +467,7 @@ def gen_cs():
             "round": st.sampled_from([None, None, None, 1]),
             "cyclic": st.booleans(),
             "as_int": st.booleans(),
+            "nan_pos": st.one_of(st.none(), st.integers(0, 59)),
             "extrapolation": st.sampled_from(["raise", "clip", "na", "zero", "extend", "extend"]),
             "knot_order": st.sampled_from([0, 0, 1, 2, 3]),
             "bounds": st.sampled_from(["data", "data", "inner", "outer", "zero"]),
